@@ -288,7 +288,9 @@ func genReflSameProg(r *rand.Rand) *Prog {
 		fmt.Fprintf(&b, "package %s\n\nimport (\n\t\"encoding/json\"\n\t\"reflect\"\n)\n\n", pkg)
 		for i := 0; i < 9; i++ {
 			// the same type names in both packages, the same field names in every struct
-			fmt.Fprintf(&b, "type ZqRec%s%d struct {\n\tZqID%s   int\n\tZqName%s string\n\tZqX%s    %s\n}\n\n", s, i, s, s, s, third[pi*9+i])
+			// (field names are salted with the struct's field names and positions, not the field types:
+			// the third field's name is what makes the 18 struct shapes, and so the names of ZqID/ZqName, differ)
+			fmt.Fprintf(&b, "type ZqRec%s%d struct {\n\tZqID%s   int\n\tZqName%s string\n\tZqX%s%c%d    %s\n}\n\n", s, i, s, s, s, 'a'+pi, i, third[pi*9+i])
 			fmt.Fprintf(&all, "\t\tZqRec%s%d{ZqID%s: n + %d, ZqName%s: \"n\"},\n", s, i, s, i, s)
 		}
 		fmt.Fprintf(&b, "//go:noinline\nfunc ZqDump(n int) string {\n\tout := \"\"\n\tfor _, v := range []any{\n%s\t} {\n\t\tj, _ := json.Marshal(v)\n\t\tt := reflect.TypeOf(v)\n\t\tout += t.Name() + \" \" + t.Field(0).Name + \" \" + t.Field(2).Name + \" \" + string(j) + \"\\n\"\n\t}\n\treturn out\n}\n", all.String())
